@@ -235,7 +235,7 @@ func newEnv(t *testing.T) *env {
 	ctx := context.Background()
 	dir := t.TempDir()
 	cfg := types.Config{
-		LockTimeout:    30 * time.Second, // no case relies on a lock timing out (failures are injected)
+		LockTimeout:    12 * time.Second, // no case relies on a lock timing out (failures are injected); a self-deadlocking mutant costs this much per case
 		GlobalTimeout:  60 * time.Second,
 		MaxConcurrency: 1000,
 		WALFile:        filepath.Join(dir, "wal"),
